@@ -101,6 +101,30 @@ Theorem C04_packed_list_set : forall H src e l s vs n i x m, wf_ty (TList e l) =
   exists n', view_set H src (TList e l) n i m = Ok n' /\ Repr H (TList e l) (VSeq (upd (Z.to_nat i) x vs)) n'.
 Proof. exact packed_list_set. Qed.
 
+(* lists of ANY element type (packed basic elements or composite): assignment, append (into the partial
+   last chunk or a new chunk through an expanding write) and pop (clearing the element's bytes, dropping
+   the emptied chunk, summarising) preserve representation; so does every valid history of them *)
+Theorem C04_list_set_any : forall H src e limit, wf_ty (TList e limit) = true -> forall vs n i x m,
+  wf (TList e limit) (VSeq vs) = true -> Repr H (TList e limit) (VSeq vs) n -> (0 <= i < Z.of_N (lenN vs))%Z ->
+  wf e x = true -> Repr H e x m ->
+  exists n', view_set H src (TList e limit) n i m = Ok n' /\ Repr H (TList e limit) (VSeq (upd (Z.to_nat i) x vs)) n'.
+Proof. exact list_set_any. Qed.
+Theorem C04_list_append_any : forall H src e limit, wf_ty (TList e limit) = true -> forall vs n x m,
+  wf (TList e limit) (VSeq vs) = true -> Repr H (TList e limit) (VSeq vs) n -> lenN vs < limit ->
+  wf e x = true -> Repr H e x m ->
+  exists n', list_append H src (TList e limit) n m = Ok n' /\ Repr H (TList e limit) (VSeq (vs ++ [x])) n'.
+Proof. exact list_append_any. Qed.
+Theorem C04_list_pop_any : forall H src e limit, wf_ty (TList e limit) = true -> forall vs n,
+  wf (TList e limit) (VSeq vs) = true -> Repr H (TList e limit) (VSeq vs) n -> vs <> [] ->
+  exists n', list_pop H src (TList e limit) n = Ok n' /\ Repr H (TList e limit) (VSeq (removelast vs)) n'.
+Proof. exact list_pop_any. Qed.
+Theorem C04_list_history_any : forall H src e limit, wf_ty (TList e limit) = true -> forall os vs n,
+  Repr H (TList e limit) (VSeq vs) n -> wf (TList e limit) (VSeq vs) = true -> vvalid_ops H e limit vs os ->
+  exists n', fold_left (fun acc o => do m <- acc; vapply_impl H src e limit m o) os (Ok n) = Ok n' /\
+             Repr H (TList e limit) (VSeq (fold_left vapply_spec os vs)) n' /\
+             wf (TList e limit) (VSeq (fold_left vapply_spec os vs)) = true.
+Proof. exact list_history_any. Qed.
+
 Theorem C04_list_pop : forall H src e limit, basic_size e = None -> limit < 2 ^ 64 -> forall vs n,
   Repr H (TList e limit) (VSeq vs) n -> lenN vs <= limit -> vs <> [] ->
   exists n', list_pop H src (TList e limit) n = Ok n' /\ Repr H (TList e limit) (VSeq (removelast vs)) n'.
@@ -141,6 +165,10 @@ Print Assumptions C04_list_append.
 Print Assumptions C04_list_value_history.
 Print Assumptions C04_packed_vector_set.
 Print Assumptions C04_packed_list_set.
+Print Assumptions C04_list_set_any.
+Print Assumptions C04_list_append_any.
+Print Assumptions C04_list_pop_any.
+Print Assumptions C04_list_history_any.
 Print Assumptions C04_list_pop.
 Print Assumptions C04_tree_pop.
 Print Assumptions C04_union_change.
